@@ -216,14 +216,42 @@ def make_flat(kind):
 
 # ------------------------------------------------------------------------------------------- element level
 ELEMENT_PROPS = {
-    'node': ['site', 'capacities', 'labels', 'location', 'boot_script', 'user_data', 'tags', 'flags', 'capacity_hints'],
-    'service': ['site', 'controller_url', 'gateway', 'labels', 'capacities', 'user_data'],
-    'component': ['details', 'labels', 'capacities', 'user_data', 'tags', 'boot_script'],
-    'interface': ['labels', 'capacities', 'details', 'user_data', 'flags', 'peer_labels'],
+    'node': ['site', 'capacities', 'labels', 'location', 'boot_script', 'user_data', 'tags', 'flags', 'capacity_hints', 'stitch_node'],
+    'service': ['site', 'controller_url', 'gateway', 'labels', 'capacities', 'user_data', 'stitch_node'],
+    'component': ['details', 'labels', 'capacities', 'user_data', 'tags', 'boot_script', 'stitch_node'],
+    'interface': ['labels', 'capacities', 'details', 'user_data', 'flags', 'peer_labels', 'stitch_node'],
 }
+# properties that cannot be unset (the flag is always there): checked for overwrite only
+NO_UNSET = {'stitch_node'}
 
 
-def elem_value(h, p):
+def elem_value(h, p, second=False):
+    """a representative value of property p; second=True: another value of the same property (falsy / 'smaller' where the
+    type has such values: overwriting must not depend on the new value being truthy)"""
+    if second:
+        if p in ('site', 'controller_url', 'boot_script', 'details'):
+            return {'site': 'SITE3', 'controller_url': 'http://d', 'boot_script': 'true', 'details': 'other'}[p]
+        if p == 'stitch_node':
+            return False
+        if p == 'capacities':
+            return h.call(Capacities, core=1)
+        if p in ('labels', 'peer_labels'):
+            return h.call(Labels, local_name='eth1', vlan='100')
+        if p == 'location':
+            return h.call(Location, lat=0.0, lon=0.0)
+        if p == 'user_data':
+            return h.call(UserData, '{}')
+        if p == 'tags':
+            return h.call(Tags, 't3')
+        if p == 'flags':
+            return h.call(Flags, ptp=True)
+        if p == 'capacity_hints':
+            return h.call(CapacityHints, instance_type='fabric.c1.m4.d10')
+        if p == 'gateway':
+            return h.call(Gateway, h.call(Labels, ipv6_subnet='2001:db8::/64', ipv6='2001:db8::1'))
+        raise KeyError(p)
+    if p == 'stitch_node':
+        return True
     if p in ('site', 'controller_url', 'boot_script', 'details'):
         return {'site': 'SITE2', 'controller_url': 'http://c', 'boot_script': '#!/bin/sh', 'details': 'some, "details"'}[p]
     if p == 'peer_labels':
@@ -276,16 +304,28 @@ def make_elem(kind):
             else:
                 el = h.call(h.getattr(t, 'add_network_service'), name='svc', nstype=ServiceType.L3VPN,
                             interfaces=PList([]) if h.mode == 'sym' else [])
+            # a witness property set beforehand: setting / overwriting p must leave it alone
+            wname = 'stitch_node' if p != 'stitch_node' else 'user_data'
+            wval = True if wname == 'stitch_node' else h.call(UserData, '{"w": 1}')
+            h.call(h.getattr(el, 'set_property'), wname, wval)
             v = elem_value(h, p)
             h.call(h.getattr(el, 'set_property'), p, v)
             got = h.call(h.getattr(el, 'get_property'), p)
-            h.call(h.getattr(el, 'unset_property'), p)
-            after = h.call(h.getattr(el, 'get_property'), p)
-            return (v, got, after)
+            v2 = elem_value(h, p, second=True)
+            h.call(h.getattr(el, 'set_property'), p, v2)
+            got2 = h.call(h.getattr(el, 'get_property'), p)
+            wgot = h.call(h.getattr(el, 'get_property'), wname)
+            after = None
+            if p not in NO_UNSET:
+                h.call(h.getattr(el, 'unset_property'), p)
+                after = h.call(h.getattr(el, 'get_property'), p)
+            return (v, got, after, v2, got2, wval, wgot)
 
         ensures = {
             'elem.set_then_get_equal': lambda pre, post: returned(post) and eq_value(post.result[0], post.result[1]),
+            'elem.second_set_overrides_the_first': lambda pre, post: returned(post) and eq_value(post.result[3], post.result[4]),
             'elem.unset_reads_absent': lambda pre, post: returned(post) and post.result[2] is None,
+            'elem.set_leaves_other_properties': lambda pre, post: returned(post) and eq_value(post.result[5], post.result[6]),
         }
     Elem.__name__ = f'ElementSetGetUnset_{kind}'
     return Elem
